@@ -432,6 +432,8 @@ def check_queries(tree, rt, rts, th, tracked, fail):
 
 
 def check_member(m, mode, acc, deep=True):
+    import tskit
+
     case_base = {"member": m.desc(), "mode": mode}
     acc.enter(case_base)
     tc, ts, site_pos = build_ts(m)
@@ -456,6 +458,23 @@ def check_member(m, mode, acc, deep=True):
     if ts.num_trees != nt:
         acc.ev(1, nontrivial)
         return
+    # tracked_samples naming a node that is not a sample (whatever other flag bits it carries) is refused
+    for u in range(N):
+        if not m.flags[u]:
+            acc.ev(1, nontrivial)
+            for how in ("Tree", "trees"):
+                try:
+                    if how == "Tree":
+                        tskit.Tree(ts, tracked_samples=[u])
+                    else:
+                        next(iter(ts.trees(tracked_samples=[u])), None)
+                except (tskit.LibraryError, ValueError):
+                    continue
+                except Exception as e:  # noqa
+                    acc.fail("tracked:nonsample:wrong-error", f"tracked_samples=[{u}] raised {e!r}", case_base)
+                    continue
+                acc.fail("tracked:nonsample:accepted", f"{how}(tracked_samples=[{u}]) accepted a node that is not a sample "
+                         f"(flags {int(tc.nodes.flags[u])})", case_base)
     for oi, (sl, th, tr) in enumerate(option_list(m, mode)):
         kw = dict(sample_lists=sl, root_threshold=th)
         if tr is not None:
